@@ -34,7 +34,7 @@ CONTRACT = """    requires
             &&& (*final(remaining) == 0 ==> (
                     if is_last_input && taken == full.len() { r is None }
                     else { r is Some && r->Some_0.0 == prob_idx && r->Some_0.1 is Some
-                           && (r->Some_0.1->Some_0 as int) <= next_chain@.len()
+                           && (r->Some_0.1->Some_0 as int) <= next_chain@.len() && r->Some_0.1->Some_0 <= IDX::MAX
                            && chain(next_chain@, r->Some_0.1->Some_0 as IDX) == full.subrange(taken, full.len() as int)
                            && (r->Some_0.1->Some_0 == 0 <==> taken == full.len()) }))
         }),"""
@@ -106,6 +106,9 @@ def unit(t, d):
     )
 
 VERUS = [unit("u64", True), unit("u64", False), unit("u32", True), unit("u32", False)]
+for _u in VERUS:
+    if _u["name"] not in ("traverse_chain_u64_forward", "traverse_chain_u32_reversed"):
+        _u["mutants"] = []
 KANI = []
 TRUSTED = ["Verus 0.2026.09.13 + bundled Z3", "global size_of usize == 8", "rewrite R3: T monomorphised to u32 and to u64 (the two instantiations of the crate); T::usize_as == `as`; Into<u64> == `as u64`"]
 ASSUMPTIONS = ["precondition: `next` is well formed (every link points to a row of strictly smaller rank: earlier row for forward insertion, later row for reversed insertion)",
@@ -122,3 +125,138 @@ KANI = [dict(package="datafusion-physical-plan", module="physical_plan/join_hash
          what="unique-key fast path agrees with the reference"),
 ])]
 TRUSTED += ["Kani 0.68 / CBMC 6.11 for the bounded map-API harnesses (hashbrown executed concretely)"]
+
+# ------------------------------------------------------------------------------------------
+# second Verus family: the whole paged lookup (get_matched_indices_with_limit_offset), with
+# hashbrown::HashTable::find and NullBuffer::is_null behind assumed contracts
+# ------------------------------------------------------------------------------------------
+FJ = "datafusion/physical-plan/src/joins/join_hash_map.rs"
+
+def mono_lookup(t):
+    return [
+        dict(rule="R3", find="fn get_matched_indices_with_limit_offset<T>(", replace="fn get_matched_indices_with_limit_offset("),
+        dict(rule="R3", find="map: &HashTable<(u64, T)>,", replace="map: &HashTable<(u64, %s)>," % t),
+        dict(rule="R3", find="next_chain: &[T],", replace="next_chain: &[%s]," % t),
+        dict(rule="R3", regex=r"where\s+T: Copy \+ TryFrom<usize> \+ PartialOrd \+ Into<u64> \+ Sub<Output = T>,\s+<T as TryFrom<usize>>::Error: Debug,\s+T: ArrowNativeType,\s*", replace="", count=1),
+        dict(rule="R3", find="let one = T::try_from(1).unwrap();", replace="let one = (1 as %s);" % t),
+        dict(rule="R3", find="let next_idx: T = T::usize_as(next_idx as usize);", replace="let next_idx: %s = ((next_idx as usize) as %s);" % (t, t)),
+        dict(rule="R3", find="let idx: T = *idx;", replace="let idx: %s = *idx;" % t),
+        dict(rule="R3", find="match_indices.push((*idx - one).into());", replace="match_indices.push((*idx - one) as u64);"),
+        dict(rule="R1", find="for (i, &hash) in hash_values[start..end].iter().enumerate() {", replace="for i in 0..(end - start) { let hash = hash_values[start + i];"),
+        dict(rule="R1", find="for (i, &hash) in hash_values[to_skip..].iter().enumerate() {", replace="for i in 0..(hash_values.len() - to_skip) { let hash = hash_values[to_skip + i];"),
+        dict(rule="R13", find="valid_keys.is_some_and(|valid| valid.is_null(start + i))", replace="key_is_null(valid_keys, start + i)"),
+        dict(rule="R13", find="valid_keys.is_some_and(|valid| valid.is_null(row_idx))", replace="key_is_null(valid_keys, row_idx)"),
+        dict(rule="R13", find="map.find(hash, |(h, _)| hash == *h)", replace="map_find(map, hash)", count=2),
+        dict(rule="R11", find="(start + limit).min(hash_values.len())", replace="min_usize(start + limit, hash_values.len())"),
+        # R18: `if c { continue; } REST` at the head of a loop body -> `if !c { REST }` (for-loops with `continue` are
+        # outside the subset); REST = the remainder of the loop body up to its closing brace (indentation-anchored regex)
+        dict(rule="R18", regex=r"if (key_is_null\([^)]*\)) \{\s*continue;\s*\}\n(.*?)\n(        \})", replace=r"if !\1 {\n\2\n            }\n\3", count=2),
+    ]
+
+ARGS = "map.heads(), next_chain@, hash_values@, valid_keys"
+LOOKUP_CONTRACT = """    requires
+        wf_chain(next_chain@), wf_map(map.heads(), next_chain@),
+        1 <= limit <= usize::MAX / 2,
+        hash_values@.len() <= u32::MAX,
+        offset_ok(next_chain@, hash_values@, offset),
+        // unique-keys fast path: as many distinct hashes as build rows means no chains (invariant of update_from_iter),
+        // and that path only produces / accepts row offsets
+        map.spec_len() == next_chain@.len() ==> offset.1 is None && forall|j: int| 0 <= j < next_chain@.len() ==> next_chain@[j] == 0,
+    ensures
+        // pages concatenate to the unpaged answer: what this call returns followed by what the returned offset
+        // still stands for is exactly what the incoming offset stood for (nothing lost, duplicated or invented;
+        // NULL-key probe rows contribute nothing)
+        final(match_indices)@ + opt_b(""" + ARGS + """, r) == off_b(""" + ARGS + """, offset),
+        final(input_indices)@ + opt_a(""" + ARGS + """, r) == off_a(""" + ARGS + """, offset),
+        final(match_indices)@.len() == final(input_indices)@.len(),
+        final(match_indices)@.len() <= limit,
+        // the returned offset can be fed back, and paging makes progress
+        r is Some ==> offset_ok(next_chain@, hash_values@, r->Some_0)
+                      && (map.spec_len() == next_chain@.len() ==> r->Some_0.1 is None)
+                      && (r->Some_0.0 > offset.0 || final(match_indices)@.len() >= 1),"""
+
+INV_COMMON = """
+            wf_chain(next_chain@), wf_map(map.heads(), next_chain@), one == 1,
+            hash_values@.len() <= u32::MAX, limit <= usize::MAX / 2,
+            match_indices@.len() == input_indices@.len(),
+"""
+INV_UNIQUE = """
+        invariant""" + INV_COMMON + """
+            start == offset.0, offset.1 is None, start <= end <= hash_values@.len(), end <= start + limit,
+            forall|j: int| 0 <= j < next_chain@.len() ==> next_chain@[j] == 0,
+            match_indices@.len() <= i,
+            match_indices@ + rest_b(""" + ARGS + """, start + i) == rest_b(""" + ARGS + """, start as int),
+            input_indices@ + rest_a(""" + ARGS + """, start + i) == rest_a(""" + ARGS + """, start as int),
+"""
+INV_CHAINED = """
+        invariant""" + INV_COMMON + """
+            to_skip <= hash_values@.len(), hash_values_len == hash_values@.len(),
+            match_indices@.len() + remaining_output == limit,
+            remaining_output >= 1 || to_skip + i >= hash_values@.len(),
+            map.spec_len() != next_chain@.len(),
+            match_indices@ + rest_b(""" + ARGS + """, to_skip + i) == off_b(""" + ARGS + """, offset),
+            input_indices@ + rest_a(""" + ARGS + """, to_skip + i) == off_a(""" + ARGS + """, offset),
+"""
+
+def lookup_unit(t, d):
+    return dict(
+        name="paged_lookup_%s_%s" % (t, "forward" if d else "reversed"),
+        uses="use vstd::prelude::*;\n",
+        prelude="prelude_lookup.rs",
+        proofs_header="pub type IDX = %s;\nspec fn dir_forward() -> bool { %s }\n" % (t, "true" if d else "false"),
+        proofs=["proofs_common.rs", "proofs_lookup.rs"],
+        witness="witness_lookup.rs", rlimit=120, min_verified=8, twins=["c14_paged_lookup_bounded_chained_forward"],
+        tier="quick" if (t, d) in (("u64", True), ("u32", False)) else "thorough",
+        items=[
+            dict(file=F, path=["fn traverse_chain"], ret="r", edits=mono(t), contract=CONTRACT, loop_count=1,
+                 loops={0: INV}, proofs=VERUS[0]["items"][0]["proofs"]),
+            dict(file=FJ, path=["fn get_matched_indices_with_limit_offset"], ret="r", edits=mono_lookup(t), loop_count=2,
+                 contract=LOOKUP_CONTRACT, loops={0: INV_UNIQUE, 1: INV_CHAINED},
+                 proofs=[
+                     dict(at="loop_body_start:0", text="""
+            proof {
+                let row = start + i;
+                assert(rest_b(""" + ARGS + """, row as int) == row_matches(""" + ARGS + """, row as int) + rest_b(""" + ARGS + """, row + 1));
+                assert(rest_a(""" + ARGS + """, row as int) == Seq::new(row_matches(""" + ARGS + """, row as int).len(), |q: int| row as u32) + rest_a(""" + ARGS + """, row + 1));
+                assert(Seq::<u64>::empty() + rest_b(""" + ARGS + """, row + 1) =~= rest_b(""" + ARGS + """, row + 1));
+                assert(Seq::<u32>::new(0, |q: int| row as u32) + rest_a(""" + ARGS + """, row + 1) =~= rest_a(""" + ARGS + """, row + 1));
+                let h = hash_values@[row as int];
+                if map.heads().contains_key(h) {
+                    let k = map.heads()[h];
+                    assert(chain(next_chain@, 0 as IDX) =~= Seq::<u64>::empty());
+                    assert(chain(next_chain@, k) =~= seq![(k - 1) as u64]);
+                }
+            }"""),
+                     dict(at="loop_body_end:0", text="""
+            proof {
+                let row = start + i;
+                let rm = row_matches(""" + ARGS + """, row as int);
+                if !null_at(valid_keys, row as int) && map.heads().contains_key(hash_values@[row as int]) {
+                    let k = map.heads()[hash_values@[row as int]];
+                    assert(rm =~= seq![(k - 1) as u64]);
+                    assert(match_indices@ + rest_b(""" + ARGS + """, row + 1) =~= match_indices@.drop_last() + (rm + rest_b(""" + ARGS + """, row + 1)));
+                    assert(Seq::new(rm.len(), |q: int| row as u32) =~= seq![row as u32]);
+                    assert(input_indices@ + rest_a(""" + ARGS + """, row + 1) =~= input_indices@.drop_last() + (seq![row as u32] + rest_a(""" + ARGS + """, row + 1)));
+                }
+            }"""),
+                 ]),
+        ],
+        mutants=[
+            dict(name="null_mask_relative_index", item="get_matched_indices_with_limit_offset", find="key_is_null(valid_keys, row_idx)", replace="key_is_null(valid_keys, i)"),
+            dict(name="resume_skips_a_row", item="get_matched_indices_with_limit_offset", find="(idx, None) => idx,", replace="(idx, None) => idx + 1,"),
+            dict(name="resume_zero_repeats_row", item="get_matched_indices_with_limit_offset", find="(idx, Some(0)) => idx + 1,", replace="(idx, Some(0)) => idx,"),
+            dict(name="unique_path_wrong_probe_index", item="get_matched_indices_with_limit_offset", find="input_indices.push(start as u32 + i as u32);", replace="input_indices.push(i as u32);"),
+            dict(name="unique_path_end_off_by_one", item="get_matched_indices_with_limit_offset", find="Some((end, None))", replace="Some((end + 1, None))"),
+            dict(name="last_flag_wrong", item="get_matched_indices_with_limit_offset", find="let is_last = row_idx == hash_values_len - 1;", replace="let is_last = row_idx + 1 >= hash_values_len - 1;"),
+        ],
+    )
+
+_lk = [lookup_unit("u64", True), lookup_unit("u32", False), lookup_unit("u64", False), lookup_unit("u32", True)]
+for _u in _lk[2:]:
+    _u["mutants"] = []
+VERUS += _lk
+TRUSTED += ["ASSUMED contract of hashbrown::HashTable::find (map from hash to chain head) and of arrow NullBuffer::is_null (prelude_lookup.rs)",
+            "rewrites R1 (slice-iter-enumerate loops), R11, R13 (closures -> prelude fns)"]
+ASSUMPTIONS += ["every head stored in the hash table is a valid 1-based row index (invariant of update_from_iter, not verified)",
+                "unique-keys fast path: map.len() == next.len() implies every next entry is 0 (invariant of update_from_iter)",
+                "probe batch rows <= u32::MAX, limit <= usize::MAX/2, incoming offset valid (produced by an earlier call or (0, None))"]
